@@ -1248,3 +1248,32 @@ func (m *ModRef) ResultLocs(fn *ssa.Function) []Loc {
 	sort.Slice(out, func(i, j int) bool { return out[i].String() < out[j].String() })
 	return out
 }
+
+// Capture is a reference to memory supplied through one parameter of an entry point that the entry stored
+// inside memory supplied through another parameter: afterwards the two arguments share storage.
+type Capture struct {
+	Cell Loc // where the reference was stored
+	Ref  Loc // what it refers to
+}
+
+// ParamCaptures lists the cross-parameter references entry may create.
+func (m *ModRef) ParamCaptures(entry *ssa.Function) []Capture {
+	var out []Capture
+	for c, vs := range m.cells {
+		if c.O.Kind != ObjExt || c.O.Entry != entry {
+			continue
+		}
+		for v := range vs {
+			if v.O.Kind == ObjExt && v.O.Entry == entry && v.O.Param != c.O.Param {
+				out = append(out, Capture{c, v})
+			}
+		}
+	}
+	sort.Slice(out, func(i, j int) bool {
+		if out[i].Cell.String() != out[j].Cell.String() {
+			return out[i].Cell.String() < out[j].Cell.String()
+		}
+		return out[i].Ref.String() < out[j].Ref.String()
+	})
+	return out
+}
